@@ -90,6 +90,8 @@ def utc_us(ob):
 
 
 def utc_representable(ob):
+    if ob[7] is None:  # naive observation (only on a broken tree): nothing to normalise
+        return False
     return MIN_US <= utc_us(ob) <= MAX_US
 
 
